@@ -627,7 +627,8 @@ fn round_ascii_digits(
 #[inline(never)]
 pub(crate) fn write_scientific_notation<W: Write>(n: &BigDecimal, w: &mut W) -> fmt::Result {
     if n.is_zero() {
-        return w.write_str("0e0");
+        // keep the scale of the zero so it parses back unchanged ("0.000" -> "0e-3")
+        return write!(w, "0e{}", (n.scale as i128).neg());
     }
 
     if n.int_val.sign() == Sign::Minus {
